@@ -1,4 +1,7 @@
-"""Interpreter part of the C05 thorough tier: generated histories replayed under Miri.
+"""Interpreter part of the C05 and C11 thorough tiers: generated histories (C05) and edited
+serializations (C11, kind='deser': `engine sample-deser`, half accepted and half rejected inputs; the
+case runner's outcome oracle stays on, the follow-up history runs with the per-step oracles off)
+replayed under Miri.
 
 The histories are sampled natively by `engine sample` (same proptest strategy as the engine, a pure
 function of the seed; only passing, non-trivial ones are kept), then harness/vmiri replays them in
@@ -29,11 +32,15 @@ def env(flags):
     return e
 
 
-def sample(seed, n, max_ops):
+def sample(seed, n, max_ops, kind='ops'):
     os.makedirs(WORK, exist_ok=True)
     cases = os.path.join(WORK, 'cases.json')
-    r = subprocess.run([os.path.join(HARNESS, 'target', 'release', 'engine'), 'sample', '--prop', 'C05', '--seed', str(seed), '--n', str(n),
-                        '--max-ops', str(max_ops), '--out', cases], cwd=HARNESS, stdout=subprocess.PIPE, stderr=subprocess.STDOUT, text=True)
+    engine = os.path.join(HARNESS, 'target', 'release', 'engine')
+    if kind == 'deser':
+        cmd = [engine, 'sample-deser', '--seed', str(seed), '--n', str(n), '--out', cases]
+    else:
+        cmd = [engine, 'sample', '--prop', 'C05', '--seed', str(seed), '--n', str(n), '--max-ops', str(max_ops), '--out', cases]
+    r = subprocess.run(cmd, cwd=HARNESS, stdout=subprocess.PIPE, stderr=subprocess.STDOUT, text=True)
     if r.returncode != 0:
         return None, r.stdout[-3000:]
     return cases, ''
@@ -62,7 +69,7 @@ def classify(text):
     return 'other', head
 
 
-def run_shards(cases, nshards, timeout, flags, only=None):
+def run_shards(cases, nshards, timeout, flags, only=None, kind='ops'):
     procs = []
     for i in range(nshards):
         if only is not None and i not in only:
@@ -71,7 +78,7 @@ def run_shards(cases, nshards, timeout, flags, only=None):
         if os.path.exists(prog):
             os.remove(prog)
         log = open(os.path.join(WORK, 'shard%d.log' % i), 'w')
-        p = subprocess.Popen(['cargo', '+nightly', 'miri', 'run', '-q', '-p', 'vmiri', '--', cases, str(i), str(nshards), prog], cwd=HARNESS,
+        p = subprocess.Popen(['cargo', '+nightly', 'miri', 'run', '-q', '-p', 'vmiri', '--'] + (['deser'] if kind == 'deser' else []) + [cases, str(i), str(nshards), prog], cwd=HARNESS,
                              env=env(flags), stdout=log, stderr=subprocess.STDOUT)
         procs.append((i, p, log, prog))
     out = {}
@@ -92,17 +99,23 @@ def run_shards(cases, nshards, timeout, flags, only=None):
     return out
 
 
-def run(seed, n=96, max_ops=24, nshards=16, timeout=3600):
+def flags_for(kind):
+    # edited inputs: values leaked by a failed deserialization are property C04's business (recorded
+    # findings), so the interpreter's exit-time leak report is off for that kind
+    return BASE_FLAGS + (' -Zmiri-ignore-leaks' if kind == 'deser' else '')
+
+
+def run(seed, n=96, max_ops=24, nshards=16, timeout=3600, kind='ops'):
     """dict(cases, done, ops, failure=None|dict(kind, headline, registry, case, log), observations=[...], inconclusive=None|str, build_error=None|str)"""
     shutil.rmtree(WORK, ignore_errors=True)
-    cases, err = sample(seed, n, max_ops)
+    cases, err = sample(seed, n, max_ops, kind)
     if cases is None:
         return dict(build_error='engine sample failed: ' + err)
     ok, text = build()
     if not ok:
         return dict(build_error=text)
     all_cases = json.load(open(cases))
-    res = run_shards(cases, nshards, timeout, BASE_FLAGS)
+    res = run_shards(cases, nshards, timeout, flags_for(kind), kind=kind)
     observations = []
     rerun = []
     for i, r in sorted(res.items()):
@@ -112,11 +125,11 @@ def run(seed, n=96, max_ops=24, nshards=16, timeout=3600):
                 observations.append({'shard': i, 'case_index': r['progress'].get('running'), 'report': head})
                 rerun.append(i)
     if rerun:
-        res.update(run_shards(cases, nshards, timeout, BASE_FLAGS + ' -Zmiri-disable-stacked-borrows', only=set(rerun)))
+        res.update(run_shards(cases, nshards, timeout, flags_for(kind) + ' -Zmiri-disable-stacked-borrows', only=set(rerun), kind=kind))
     done = sum(r['progress'].get('done', 0) for r in res.values())
     ops = sum(r['progress'].get('ops', 0) for r in res.values())
     result = dict(cases=len(all_cases), done=done, ops=ops, failure=None, observations=observations, inconclusive=None, build_error=None,
-                  samples=[{'registry': c[0], 'ops': c[1]} for c in all_cases[:2]])
+                  samples=[{'registry': c[0], 'case': c[1]} for c in all_cases[:2]])
     for i, r in sorted(res.items()):
         if r['timed_out']:
             result['inconclusive'] = 'shard %d exceeded its watchdog of %d s' % (i, timeout)
@@ -137,12 +150,12 @@ def run(seed, n=96, max_ops=24, nshards=16, timeout=3600):
     return result
 
 
-def replay(registry, case_ops, timeout=3600):
-    """run one history under the interpreter; returns (failed: bool|None, text)"""
+def replay(registry, case_ops, timeout=3600, kind='ops'):
+    """run one history / edited input under the interpreter; returns (failed: bool|None, text)"""
     os.makedirs(WORK, exist_ok=True)
     cases = os.path.join(WORK, 'replay-case.json')
     json.dump([[registry, case_ops]], open(cases, 'w'))
-    res = run_shards(cases, 1, timeout, BASE_FLAGS)
+    res = run_shards(cases, 1, timeout, flags_for(kind), kind=kind)
     r = res[0]
     if r['timed_out']:
         return None, 'watchdog'
@@ -152,7 +165,7 @@ def replay(registry, case_ops, timeout=3600):
         return True, r['progress'].get('message', '')
     kind, head = classify(r['log'])
     if kind == 'aliasing-model':
-        r = run_shards(cases, 1, timeout, BASE_FLAGS + ' -Zmiri-disable-stacked-borrows')[0]
+        r = run_shards(cases, 1, timeout, flags_for(kind) + ' -Zmiri-disable-stacked-borrows', kind=kind)[0]
         if r['rc'] == 0:
             return False, 'aliasing-model report only: ' + head
         kind, head = classify(r['log'])
